@@ -26,7 +26,7 @@ UNIT = {
          "decreases": "clang::s_depth(*ty)",
          "ensures": ["r == c_const(*ty)"]},
         {"kind": "fn", "file": VR, "name": "var_is_const", "impl": r"^impl ClangSubItemParser for Var$", "ret": "r",
-         "closure": {"enclosing": "parse", "anchor": "let is_const = ty.is_const() ||", "nth": 0, "stmt": "let",
+         "closure": {"enclosing": "parse", "anchor_re": r"(?m)^\s*let is_const\s*=", "nth": 0, "stmt": "let",
                      "signature": "fn var_is_const(ty: clang::Type) -> (r: bool)", "prefix": "{", "suffix": "; is_const }"},
          "ensures": [
              # the variable is immutable exactly when its type - as spelled or behind typedefs - is const through every array dimension
